@@ -1,7 +1,12 @@
 import Props.C17
+import Props.EffectFacts
 open Model.C17
 #print axioms store_closed_at_every_prefix
 #print axioms memory_subset_store
 #print axioms published_heads_in_store
 #print axioms store_only_grows
 #print axioms checked_predicate_sound
+open Model.EffectFacts in
+#print axioms append_writes_and_checks_before_publishing
+open Model.EffectFacts in
+#print axioms no_block_removal
